@@ -253,31 +253,33 @@ ItemClass(p) ==
          ELSE IF nc = "unk" THEN (IF QcharsOK(p.raw) THEN <<"unk", "name-case">> ELSE <<"bad", "qchar">>)
          ELSE <<StrClass(p.raw), "qchar">>
 
-WF(p)        == ~IsEmptyItem(p) /\ NameOK(p.nm) /\ IdxOK(p)          \* the item names a parameter of a payment
-Is(p, cls)   == WF(p) /\ p.eq /\ NameClass(p.nm) = cls
-LeadItems(u) == IF u.lead.t = "addr" THEN <<[idx |-> << >>, kd |-> u.lead.kd, a |-> u.lead.a]>> ELSE << >>
-\* all address providers: the lead address is `address=` of the un-indexed payment (ZIP 321: "MUST be considered
-\* equivalent")
-Addrs(u) == LeadItems(u) \o
-            [j \in 1..Len(SelectSeq(u.ps, LAMBDA p : Is(p, "address"))) |->
-                LET p == SelectSeq(u.ps, LAMBDA q : Is(q, "address"))[j]
-                IN  [idx |-> Idx(p), kd |-> p.kd, a |-> p.a]]
-Indices(u) == {Idx(u.ps[j]) : j \in {k \in DOMAIN u.ps : WF(u.ps[k])}} \cup {x.idx : x \in Range(Addrs(u))}
-AddrsAt(u, i) == SelectSeq(Addrs(u), LAMBDA x : x.idx = i)
-ItemsAt(u, i, cls) == SelectSeq(u.ps, LAMBDA p : Is(p, cls) /\ Idx(p) = i)
+WF(p) == ~IsEmptyItem(p) /\ NameOK(p.nm) /\ IdxOK(p)                 \* the item names a parameter of a payment
+\* every item read once: q = [wf, cls, idx, eq, ic, p]  (cls, idx meaningful when wf)
+Read(u) == [j \in DOMAIN u.ps |->
+               LET p == u.ps[j]  wf == WF(p)
+               IN  [wf |-> wf, cls |-> IF wf THEN NameClass(p.nm) ELSE "none", idx |-> IF wf THEN Idx(p) ELSE << >>,
+                    eq |-> p.eq, ic |-> ItemClass(p), p |-> p]]
+IsQ(q, cls) == q.wf /\ q.eq /\ q.cls = cls
+\* all address providers: the lead address is `address=` of the un-indexed payment (ZIP 321: "A URI of the form
+\* zcash:<address>?... MUST be considered equivalent to a URI of the form zcash:?address=<address>&...")
+AddrsR(u, R) == (IF u.lead.t = "addr" THEN <<[idx |-> << >>, kd |-> u.lead.kd, a |-> u.lead.a]>> ELSE << >>)
+                \o LET as == SelectSeq(R, LAMBDA q : IsQ(q, "address"))
+                   IN  [j \in DOMAIN as |-> [idx |-> as[j].idx, kd |-> as[j].p.kd, a |-> as[j].p.a]]
+IndicesR(R, A) == {q.idx : q \in {x \in Range(R) : x.wf}} \cup {x.idx : x \in Range(A)}
+At(R, i, cls) == SelectSeq(R, LAMBDA q : IsQ(q, cls) /\ q.idx = i)
 \* "There MUST NOT be more than one occurrence of a given parameter and paramindex"
-HasDup(u) == \/ \E j, k \in DOMAIN u.ps : j < k /\ WF(u.ps[j]) /\ WF(u.ps[k])
-                                          /\ u.ps[j].nm = u.ps[k].nm /\ Idx(u.ps[j]) = Idx(u.ps[k])
-             \/ \E i \in Indices(u) : Len(AddrsAt(u, i)) > 1
-NameCaseSeen(u) == \E j \in DOMAIN u.ps : WF(u.ps[j]) /\ NameClass(u.ps[j].nm) = "unk"
+HasDupR(R, A) ==
+    LET keys == [j \in DOMAIN R |-> IF R[j].wf THEN <<R[j].p.nm, R[j].idx>> ELSE <<j>>]
+        akey == [j \in DOMAIN A |-> A[j].idx]
+    IN  Cardinality(Range(keys)) < Len(keys) \/ Cardinality(Range(akey)) < Len(akey)
 \* per payment index: "ok" | "bad" | "unk", with the reason
-PayClass(u, i) ==
-    LET as == AddrsAt(u, i) IN
+PayClassR(R, A, i) ==
+    LET as == SelectSeq(A, LAMBDA x : x.idx = i) IN
     IF Len(as) = 0 THEN <<"bad", "recipient-missing">>
     ELSE LET kd    == as[1].kd
-             memos == ItemsAt(u, i, "memo")
-             amts  == SelectSeq(ItemsAt(u, i, "amount"), LAMBDA p : AmtOK(AmtRec(p.raw)))
-             zero  == \E j \in DOMAIN amts : IsZeroNum(Zat(AmtRec(amts[j].raw)))
+             memos == At(R, i, "memo")
+             amts  == SelectSeq(At(R, i, "amount"), LAMBDA q : q.ic[1] = "ok")
+             zero  == \E j \in DOMAIN amts : IsZeroNum(Zat(AmtRec(amts[j].p.raw)))
          IN  IF kd \in Kinds
              THEN IF Len(memos) > 0 /\ ~CanMemo(kd) THEN <<"bad", "memo-to-transparent">>
                   ELSE IF zero /\ TOnly(kd) THEN <<"bad", "zero-transparent">>
@@ -285,12 +287,15 @@ PayClass(u, i) ==
              ELSE IF Len(memos) > 0 \/ zero THEN <<"unk", "address">> ELSE <<"ok", "">>
 
 Reasons(u) ==
-    LET items  == {ItemClass(u.ps[j]) : j \in DOMAIN u.ps}
+    LET R      == Read(u)
+        A      == AddrsR(u, R)
+        items  == {R[j].ic : j \in DOMAIN R}
         leadc  == IF u.lead.t = "addr" THEN {<<AddrClass(u.lead.kd), "address">>} ELSE {}
         \* rules that relate items are definite only if no name is of uncertain reading
-        cap(c) == IF c[1] = "bad" /\ NameCaseSeen(u) THEN <<"unk", c[2]>> ELSE c
-        pays   == {cap(PayClass(u, i)) : i \in Indices(u)}
-        dup    == IF HasDup(u) THEN {<<"bad", "duplicate">>} ELSE {}
+        ncase  == \E j \in DOMAIN R : R[j].wf /\ R[j].cls = "unk"
+        cap(c) == IF c[1] = "bad" /\ ncase THEN <<"unk", c[2]>> ELSE c
+        pays   == {cap(PayClassR(R, A, i)) : i \in IndicesR(R, A)}
+        dup    == IF HasDupR(R, A) THEN {<<"bad", "duplicate">>} ELSE {}
         sch    == IF u.sch = "bad" THEN {<<"bad", "scheme">>} ELSE IF u.sch = "case" THEN {<<"unk", "scheme">>} ELSE {}
         empty  == IF u.lead.t = "none" /\ u.ps = << >> THEN {<<"unk", "empty-request">>} ELSE {}
     IN  items \cup leadc \cup pays \cup dup \cup sch \cup empty
@@ -309,20 +314,21 @@ Verdict(u) ==
 \* a payment: [i: index digits (<< >> = un-indexed), a/kd: recipient, hz/z: amount in zatoshi (canonical digits),
 \* hm/m: memo bytes without trailing zeros, hl/l: label bytes, hg/g: message bytes, o: set of <<name, value bytes>>]
 Opt(items, F(_)) == IF Len(items) = 0 THEN << >> ELSE F(items[1])
-PayAt(u, i) ==
-    LET ad == AddrsAt(u, i)[1]
-        am == ItemsAt(u, i, "amount")
-        me == ItemsAt(u, i, "memo")
-        la == ItemsAt(u, i, "label")
-        ms == ItemsAt(u, i, "message")
-        ot == ItemsAt(u, i, "other")
+PayAtR(R, A, i) ==
+    LET ad == SelectSeq(A, LAMBDA x : x.idx = i)[1]
+        am == At(R, i, "amount")
+        me == At(R, i, "memo")
+        la == At(R, i, "label")
+        ms == At(R, i, "message")
+        ot == At(R, i, "other")
     IN  [i |-> i, a |-> ad.a, kd |-> ad.kd,
-         hz |-> Len(am) > 0, z |-> Opt(am, LAMBDA p : Zat(AmtRec(p.raw))),
-         hm |-> Len(me) > 0, m |-> Opt(me, LAMBDA p : StripZ(B64Dec(p.raw))),
-         hl |-> Len(la) > 0, l |-> Opt(la, LAMBDA p : Decode(p.raw)),
-         hg |-> Len(ms) > 0, g |-> Opt(ms, LAMBDA p : Decode(p.raw)),
-         o  |-> {<<p.nm, Decode(p.raw)>> : p \in Range(ot)}]
-Denote(u) == {PayAt(u, i) : i \in Indices(u)}                    \* for Verdict(u).t = "valid"
+         hz |-> Len(am) > 0, z |-> Opt(am, LAMBDA q : Zat(AmtRec(q.p.raw))),
+         hm |-> Len(me) > 0, m |-> Opt(me, LAMBDA q : StripZ(B64Dec(q.p.raw))),
+         hl |-> Len(la) > 0, l |-> Opt(la, LAMBDA q : Decode(q.p.raw)),
+         hg |-> Len(ms) > 0, g |-> Opt(ms, LAMBDA q : Decode(q.p.raw)),
+         o  |-> {<<q.p.nm, Decode(q.p.raw)>> : q \in Range(ot)}]
+Denote(u) == LET R == Read(u)  A == AddrsR(u, R)                  \* for Verdict(u).t = "valid"
+             IN  {PayAtR(R, A, i) : i \in IndicesR(R, A)}
 
 \* the rules of the property, stated on payments (also required of whatever the code returns for "unspec" input)
 PayRulesHold(p) ==
@@ -335,13 +341,18 @@ PayRulesHold(p) ==
 RulesHold(P) == /\ \A p \in P : PayRulesHold(p)
                 /\ \A p, q \in P : p.i = q.i => p = q
 
-\* request total: none if some payment has no amount; otherwise the sum, an error above MAX_MONEY
+\* TransactionRequest::total (rustdoc): Ok(None) if any payment does not specify an amount; Err if any summation
+\* step leaves 0..MAX_MONEY.  When both apply the rustdoc does not say which wins (it depends on where the
+\* amount-less payment sits in the fold), so both are allowed there.
 RECURSIVE SumSeq(_)
 SumSeq(zs) == IF zs = << >> THEN <<0>> ELSE NumAdd(Head(zs), SumSeq(Tail(zs)))
-Total(paySeq) ==
-    IF \E j \in DOMAIN paySeq : ~paySeq[j].hz THEN [t |-> "none", v |-> << >>]
-    ELSE LET s == SumSeq([j \in DOMAIN paySeq |-> paySeq[j].z])
-         IN  IF NumLeq(s, MaxZat) THEN [t |-> "val", v |-> s] ELSE [t |-> "err", v |-> << >>]
+TotalAllowed(paySeq) ==
+    LET withAmt == SelectSeq(paySeq, LAMBDA p : p.hz)
+        s       == SumSeq([j \in DOMAIN withAmt |-> withAmt[j].z])
+        over    == ~NumLeq(s, MaxZat)
+    IN  IF Len(withAmt) < Len(paySeq)
+        THEN {[t |-> "none", v |-> << >>]} \cup (IF over THEN {[t |-> "err", v |-> << >>]} ELSE {})
+        ELSE IF over THEN {[t |-> "err", v |-> << >>]} ELSE {[t |-> "val", v |-> s]}
 
 \* Payment::new (rustdoc): "Returns an error if the payment requests that a memo be sent to a recipient that cannot
 \* receive a memo or a zero-valued output be sent to a transparent address."
